@@ -136,6 +136,34 @@ def load_contracts():
                           "first_is_resolved_in_that_directory_at_the_time_of_the_call": "C20,C10"},
         doc={"an_exact_run_directory_name_is_returned_as_it_is": "C20: 'a results reference used as a file name replays exactly the referenced member's data.csv' -- the caller joins the "
                                                                  "returned name onto archive/<group>; returning a joined path doubles it under a relative archive path (fix 2b87a91)"}))
+    # ---- the data file a results reference names (exact run directory name)
+    cf2 = {**CF, "ReferenceParser": {"_root_major": "str", "_datatype": "str", "g_name_one": "str", "g_name_three": "str"}, "Config": {**CF.get("Config", {}), "_archive_path": "str"},
+           "CsvPaths": {**CF.get("CsvPaths", {}), "_config": "obj:Config"}}
+    cs.append(Contract(target="csvpath/util/reference_parser.py::ReferenceParser.__init__", interface=True, variant="parsed", types={"string": "str"},
+                       modifies=["self._root_major", "self._datatype", "self.g_name_one", "self.g_name_three"],
+                       ensures={"root": "self._root_major == ufun_str('ref_root', string)", "datatype": "self._datatype == ufun_str('ref_datatype', string)",
+                                "names": "self.g_name_one == ufun_str('ref_name_one', string) and self.g_name_three == ufun_str('ref_name_three', string)"},
+                       returns="none", class_fields=cf2,
+                       assumptions=["ReferenceParser(text) splits $root.datatype.name_one.name_two.name_three (functions of the text: ufun ref_*; the parser itself is not under contract) "
+                                    "-- data_file_for_reference is only called with a reference that has three names"]))
+    for prop, g in (("name_one", "g_name_one"), ("name_three", "g_name_three")):
+        cs.append(Contract(target=f"csvpath/util/reference_parser.py::ReferenceParser.{prop}", interface=True, types={}, ensures={}, returns=f"expr:self.{g}", class_fields=cf2,
+                           assumptions=[f"ReferenceParser.{prop} is the corresponding dot-separated name of the reference text (abstract view {g}; scalar ghosts instead of the names list)"]))
+    base, R, N1, N3 = "self._csvpaths._config._archive_path", "ufun_str('ref_root', refstr)", "ufun_str('ref_name_one', refstr)", "ufun_str('ref_name_three', refstr)"
+    run_dir = f"path_join(path_join({base}, {R}), {N1})"
+    cs.append(Contract(
+        target=f"{RM}::ResultsManager.data_file_for_reference", variant="exact_run_directory",
+        types={"refstr": "str", "self._csvpaths": "obj:CsvPaths", "self._csvpaths._config": "obj:Config", "self._csvpaths._config._archive_path": "str"},
+        requires=[f"{N1}.find(':') == -1"],
+        raises={"InputException": {"when": f"ufun_str('ref_datatype', refstr) != 'results' or not fs_exists(path_join({base}, {R})) or not fs_exists({run_dir}) or "
+                                           f"not fs_exists(path_join({run_dir}, {N3})) or not fs_exists(path_join(path_join({run_dir}, {N3}), 'data.csv'))", "exact": True}},
+        ensures={"names_data_csv_of_that_member_in_that_run_of_that_group": f"result == path_join(path_join({run_dir}, {N3}), 'data.csv')"},
+        callee_variants={"ReferenceParser.__init__": "parsed"},
+        inline=["CsvPaths.config", "Config.archive_path", "ReferenceParser.root_major", "ReferenceParser.datatype", "ResultsManager.csvpaths"],
+        class_fields=cf2, macros=MACROS, returns="str", native={"skip": True},
+        property_clauses={"names_data_csv_of_that_member_in_that_run_of_that_group": "C20", "raises:InputException.must": "C20", "raises:InputException.only_when": "C20"},
+        doc={"names_data_csv_of_that_member_in_that_run_of_that_group": "C20: 'a results reference used as a file name replays exactly the referenced member's data.csv': "
+                                                                        "$group.results.<run directory>.<member> is <archive>/<group>/<run directory>/<member>/data.csv"}))
     return cs
 
 
